@@ -10,3 +10,8 @@ import MCHap.Properties.C15
 #print axioms MCHap.C15.breaks_partition
 #print axioms MCHap.C15.fixed_iff
 #print axioms MCHap.C15.reinsert_spec
+#print axioms MCHap.C15.restrict_reinsert
+#print axioms MCHap.C15.reinsertHap_injective
+#print axioms MCHap.C15.reinsert_count
+#print axioms MCHap.C15.restrict_length
+#print axioms MCHap.C15.reinsert_restrict_iff
